@@ -292,10 +292,15 @@ static int recv_events(m_ctx_t *c, int timeout) {
                  * NOTE: this will reduce refs counter for evt->src to just 1,
                  * ie: it stays alive because it is needed by an evt
                  */
+                bool fired_yet = false;
                 if (p && p->flags & M_SRC_ONESHOT) {
                     if (p->type != M_SRC_TYPE_PS) {
                         m_bst_remove(mod->srcs[p->type], p);
+                    } else if (p->flags & M_SRC_ZOMBIE) {
+                        /* A message matched by this oneshot subscription before it fired: it fires only once */
+                        fired_yet = true;
                     } else {
+                        p->flags |= M_SRC_ZOMBIE;
                         m_map_remove(mod->subscriptions, p->ps_src.topic);
                     }
                 }
@@ -305,7 +310,7 @@ static int recv_events(m_ctx_t *c, int timeout) {
                  * In this case, check that any message was actually received,
                  * and it was from a know source type.
                  */
-                if (msg->fd_evt) {
+                if (msg->fd_evt && !fired_yet) {
                     recved++;
                     if (msg->type != M_SRC_TYPE_PS || !msg->ps_evt->topic || strcmp(msg->ps_evt->topic, M_PS_MOD_POISONPILL)) {
                         push_evt(mod, evt);
